@@ -12,16 +12,21 @@ RULE = ("one evaluation = one (frame list, partition of the concatenated stream)
         "frame (header or payload) / for outgoing: size class boundary; distinct by (frame sizes, content mode, cuts)")
 ASSUMPTIONS = ["frames are non-empty (the quantifier excludes empty frames)",
                "the layer is driven single-threaded, as the network thread does"]
-REQUIRED = ["toggle_histories", "toggle_ok", "toggle_switches", "recv_cases", "send_cases", "cuts_inside_header", "cuts_inside_payload", "oversize_refused", "reconnect_cases", "reconnect_ok", "reconnect_cut:header", "reconnect_cut:payload", "reconnect_closed_inside_delivery", "real_midframe_cases", "real_midframe_ok", "real_stream_cases", "real_stream_ok", "real_stream:socket", "real_stream:asyncore"]
+REQUIRED = ["toggle_other_stack_ops", "toggle_histories_without_props_argument", "toggle_histories", "toggle_ok", "toggle_switches", "recv_cases", "send_cases", "cuts_inside_header", "cuts_inside_payload", "oversize_refused", "reconnect_cases", "reconnect_ok", "reconnect_cut:header", "reconnect_cut:payload", "reconnect_closed_inside_delivery", "real_midframe_cases", "real_midframe_ok", "real_stream_cases", "real_stream_ok", "real_stream:socket", "real_stream:asyncore"]
 EXHAUSTIVE = None
 
 
-def _mk():
+def _mk(explicit_props=True):
     from vf.probes import Probe
     from yowsup.stacks import YowStack
     from yowsup.layers.noise.layer_noise_segments import YowNoiseSegmentsLayer as S
     b, t = Probe("bottom"), Probe("top")
-    st = YowStack((b, S, t), reversed=False, props={S.PROP_ENABLED: True})
+    if explicit_props:
+        st = YowStack((b, S, t), reversed=False, props={S.PROP_ENABLED: True})
+    else:
+        # (assembled without a props argument, options set afterwards: what getDefaultStack() and the demos do)
+        st = YowStack((b, S, t), reversed=False)
+        st.setProp(S.PROP_ENABLED, True)
     return st, b, t, S
 
 
@@ -130,9 +135,14 @@ def judge_toggle_history(acc, r, case_id):
     """One framing layer through a history in which framing is switched on and off between writes and reads (what the Noise layer
     does around the connection prologue: edge routing header on/off/on, plain 'WA' magic off, handshake on) and connections end:
     a write made while framing is on is len3+payload, one made while it is off is the payload alone; likewise for reads."""
-    st, b, t, S = _mk()
-    w = {"dir": "toggle-history", "case": case_id, "ops": []}
+    explicit = r.random() < 0.5
+    st, b, t, S = _mk(explicit)
+    # a second stack of the same process (another account) goes through its own prologue meanwhile: its framing switch is its own
+    st2, b2, t2, _ = _mk(explicit)
+    en2 = [True]
+    w = {"dir": "toggle-history", "case": case_id, "ops": [], "explicit_props": explicit}
     acc.count("toggle_histories")
+    acc.count("toggle_histories_without_props_argument", 0 if explicit else 1)
     acc.case(["tg", case_id], nontrivial=True)
     enabled = r.random() < 0.5
     st.setProp(S.PROP_ENABLED, enabled)
@@ -140,7 +150,19 @@ def judge_toggle_history(acc, r, case_id):
     from yowsup.layers.network import YowNetworkLayer
     switches = 0
     for i in range(r.randint(4, 14)):
-        op = r.choice(["toggle", "toggle", "send", "send", "recv", "disconnected"])
+        op = r.choice(["toggle", "toggle", "send", "send", "recv", "disconnected", "other-stack"])
+        if op == "other-stack":
+            en2[0] = not en2[0]
+            st2.setProp(S.PROP_ENABLED, en2[0])
+            b2.clear()
+            t2.send(b"WA")
+            got2 = b"".join(bytes(x) for x in b2.sent)
+            if got2 != ((b"\x00\x00\x02" if en2[0] else b"") + b"WA"):
+                acc.violation("toggle:other-stack:framing-%s" % ("on" if en2[0] else "off"), "the second stack wrote %r with its framing %s" % (got2, "on" if en2[0] else "off"), w)
+                return
+            w["ops"].append("other-%s" % ("on" if en2[0] else "off"))
+            acc.count("toggle_other_stack_ops")
+            continue
         if op == "toggle":
             enabled = not enabled
             st.setProp(S.PROP_ENABLED, enabled)
